@@ -4,7 +4,7 @@
    Spec.C19_Spec is what the property text names (splitlines, the lines of a file). *)
 From Boltons Require Import Lib.Prelude Lib.C19_Utf8 Spec.C19_Spec Model.C19_Model Gen.C19_Gen.
 From Boltons Require Import Proofs.C19_Split Proofs.C19_IterSplit Proofs.C19_Reverse Proofs.C19_Text Proofs.C19_Jsonl.
-From Boltons Require Import Check.C19_Check Proofs.C19_Oracle Proofs.C19_SpecChar Proofs.C19_Tables.
+From Boltons Require Import Check.C19_Check Proofs.C19_Oracle Proofs.C19_SpecChar Proofs.C19_Tables Proofs.C19_Sound.
 Open Scope N_scope.
 
 (* ---- iter_splitlines ---------------------------------------------------------------- *)
@@ -70,6 +70,12 @@ Proof. exact (conj eq_refl eq_refl). Qed.
 Theorem C19_utf8_roundtrip : forall t, forallb is_scalar t = true -> utf8_decode (utf8_encode t) = Some t.
 Proof. exact decode_encode. Qed.
 Print Assumptions C19_utf8_roundtrip.
+
+(* ... and accepts nothing else: whatever it decodes is the encoding of a str of scalar values *)
+Theorem C19_utf8_decode_strict : forall b t, utf8_decode b = Some t ->
+  utf8_encode t = b /\ forallb is_scalar t = true.
+Proof. exact decode_sound. Qed.
+Print Assumptions C19_utf8_decode_strict.
 
 (* splitting the bytes and decoding each line = decoding and splitting the text: no \n or \r
    byte occurs inside a multi-byte sequence, whatever the block size cuts through *)
@@ -207,3 +213,13 @@ Print Assumptions C19_py_json_space.
 Theorem C19_py_crlf_one_break : gen_py_crlf_is_one_break = true.
 Proof. exact (eq_refl true). Qed.
 Print Assumptions C19_py_crlf_one_break.
+
+(* ---- the theorems are about exactly what the check evaluates ------------------------------------ *)
+(* For every case the harness can write (any texts, contents, modes, cursors, block sizes >= 1, any
+   observations): if the implementation's observations equal what the model computes (agree), then
+   they satisfy the Spec predicate that [holds] evaluates - for all four case kinds, all three file
+   modes, inside and outside the lone-\r domain.  (Refinement: model observation |= checked Spec.) *)
+Theorem C19_check_sound : forall k, c19_wf k = true ->
+  agree_of (c19_verdict k) = true -> holds_of (c19_verdict k) = true.
+Proof. exact (verdict_sound C19_gen_breaks_ok). Qed.
+Print Assumptions C19_check_sound.
